@@ -262,7 +262,7 @@ Theorem C13_push_subject_then_predecessors :
                (cexch H subject_of main other p None) (g, n) rst (OPush d c)
         = ((g', n'), RSUnsupported, t, ROk) /\
         minv H parse_mt limit g' /\
-        index_state g' tag (Some (H (gen_index upd), upd)) /\
+        index_state g' tag (Some (H (gen_index upd), upd)) /\ NoDup (map fst (g_tags g')) /\
         (d_dg d <> H (gen_index upd) -> lookup (d_dg d) (g_mans g') = Some (d_mt d, c)) /\
         exists n'' t',
           run_op H parse_mt subject_of main other user_mts limit skip_gc index_of (reg * N)
@@ -302,6 +302,8 @@ Theorem C13_delete_subject_then_predecessors :
                (cexch H subject_of main other p None) (g, n) rst (ODelete d)
         = ((g', n'), RSUnsupported, t, ROk) /\
         minv H parse_mt limit g' /\ lookup (d_dg d) (g_mans g') = None /\
+        index_state g' tag (if is_nil upd && negb skip_gc then None else Some (H (gen_index upd), upd)) /\
+        NoDup (map fst (g_tags g')) /\
         exists n'' t',
           run_op H parse_mt subject_of main other user_mts limit skip_gc index_of (reg * N)
                  (cexch H subject_of main other p None) (g', n') RSUnsupported (OPreds sj)
